@@ -13,7 +13,7 @@ import alg
 from alg import Expr, ZERO, ONE, as_expr
 from front import AnalysisError
 import interp as I_
-from interp import Arr, SymArr, Tup, Unknown, BOT, Opaque, FuncRef, ModRef, Pred, BoolCombo, Member, SliceV, RangeV, LevelStore, PyList, SetV
+from interp import Arr, SymArr, Tup, Unknown, BOT, Opaque, FuncRef, ModRef, Pred, BoolCombo, Member, SliceV, RangeV, LevelStore, PyList, SetV, GenList
 
 
 class Spec:
@@ -634,7 +634,11 @@ def method(I, f, args, kwargs, node):
         return Unknown("scalar method %s" % name)
     if isinstance(b, Tup):
         if name == "append":
-            b.items.append(args[0])
+            if I.loop_stack and b.kind == "list":
+                L = I.loop_stack[-1]
+                b.items.append(GenList(args[0], L.ivar, L.rng))  # one generated segment per textual append inside a range loop
+            else:
+                b.items.append(args[0])
             return None
         if name == "get" and b.kind == "dict":
             for k, v in reversed(b.items):
@@ -682,6 +686,11 @@ def builtin(I, name, args, kwargs, node, env):
     if name == "len":
         x = args[0]
         if isinstance(x, Tup):
+            if any(isinstance(i, GenList) for i in x.items):
+                tot = ZERO
+                for i in x.items:
+                    tot = tot + (i.rng.count if isinstance(i, GenList) else ONE)
+                return tot
             return alg.const(len(x.items))
         if isinstance(x, Arr):
             return x.shape[0] if x.shape else Unknown("len of 0-d")
@@ -745,6 +754,8 @@ def builtin(I, name, args, kwargs, node, env):
         x = args[0]
         if isinstance(x, Tup):
             return Tup(list(x.items), name)
+        if isinstance(x, GenList):
+            return Tup([x], name)
         if isinstance(x, RangeV):
             n = const_int(x.count)
             if n is not None and n <= 64:
